@@ -137,6 +137,13 @@ def counts_case(case):
         k += 1
         if abs(got - float(exp)) > TOL:
             return {"ok": False, "msg": "expectation from frequencies on qubits %s" % qs, "expected": str(exp), "observed": got, "sig": "counts:frequencies"}
+        # the marked qubits may come in any iterable the library itself hands out (PauliTerm.qubits is a set) or a caller may hold
+        for kind, marked in (("tuple", tuple(qs)), ("set", set(qs)), ("frozenset", frozenset(qs)), ("reversed list", list(qs)[::-1]), ("dict keys", {q: "Z" for q in qs}.keys()),
+                             ("PauliTerm.qubits", PauliTerm({q: "Z" for q in qs}, 1.0).qubits if qs else set())):
+            got = get_expectation_value_from_frequencies(marked, dict(counts))
+            k += 1
+            if abs(got - float(exp)) > TOL:
+                return {"ok": False, "msg": "expectation from frequencies with the marked qubits %s given as a %s" % (qs, kind), "expected": str(exp), "observed": got, "sig": "counts:frequencies-container"}
         for s in set(shots):
             par = sum(s[q] for q in qs) % 2 == 0
             k += 1
@@ -297,7 +304,39 @@ def history_case(case):
             "key": str(sorted(model)), "out": "N%d" % len(model)}
 
 
-FUNCS = {"dict_histories": dict_history_case, "histories": history_case, "statistics": stats_case, "counts": counts_case, "nonising": nonising_case}
+def wide_shots_case(case):
+    """{'w': width, 'ones': [[positions set to 1] per distinct outcome], 'mult': [multiplicity]}: registers wider than a machine word: counts, distribution,
+    expectation values of Z_q for the highest qubits, parities"""
+    from collections import Counter
+    from orquestra.quantum.measurements import Measurements, get_expectation_value_from_frequencies
+    from orquestra.quantum.operators import PauliTerm, PauliSum
+    w = case["w"]
+    outcomes = [tuple(1 if q in ones else 0 for q in range(w)) for ones in case["ones"]]
+    shots = [o for o, mlt in zip(outcomes, case["mult"]) for _ in range(mlt)]
+    N = len(shots)
+    m = Measurements(list(shots))
+    ref = Counter("".join(map(str, s)) for s in shots)
+    counts = m.get_counts()
+    if dict(counts) != dict(ref):
+        return {"ok": False, "msg": "get_counts on %d-bit shots is not the histogram of the shots (%d distinct outcomes, %d keys returned)" % (w, len(ref), len(counts)), "sig": "wide:counts"}
+    if Counter(map(tuple, Measurements.from_counts(dict(counts)).bitstrings)) != Counter(shots):
+        return {"ok": False, "msg": "from_counts(get_counts()) on %d-bit shots" % w, "sig": "wide:roundtrip"}
+    d = m.get_distribution().distribution_dict
+    if {key: round(v * N) for key, v in d.items()} != dict(Counter(shots)):
+        return {"ok": False, "msg": "empirical distribution of %d-bit shots" % w, "sig": "wide:distribution"}
+    k = 3
+    for qs in ([0], [w - 1], [w - 2], [63] if w > 63 else [w // 2], [64] if w > 64 else [1], [0, w - 1], [w - 2, w - 1], list(range(w))):
+        exp = rs.mean([F(rs.eig(s, qs)) for s in shots])
+        k += 2
+        if abs(get_expectation_value_from_frequencies(qs, dict(counts)) - float(exp)) > TOL:
+            return {"ok": False, "msg": "expectation from frequencies on qubits %s of %d" % (qs, w), "sig": "wide:frequencies"}
+        ev = m.get_expectation_values(PauliSum([PauliTerm({q: "Z" for q in qs}, 2.0), PauliTerm("I0", 0.5)]))
+        if abs(ev.values[0] - 2.0 * float(exp)) > TOL or abs(ev.values[1] - 0.5) > TOL:
+            return {"ok": False, "msg": "get_expectation_values for Z on qubits %s of %d" % (qs, w), "expected": 2.0 * float(exp), "observed": str(ev.values), "sig": "wide:values"}
+    return {"ok": True, "nt": len(set(shots)) >= 2, "ops": k, "out": "w%d" % w}
+
+
+FUNCS = {"wide_shots": wide_shots_case, "dict_histories": dict_history_case, "histories": history_case, "statistics": stats_case, "counts": counts_case, "nonising": nonising_case}
 
 
 def multisets(w, Nmax):
@@ -328,6 +367,11 @@ def run(run):
     secs = [Section("statistics", cases, stats_case, desc="get_expectation_values: values, correlations, covariances (Bessel on/off) vs Fractions"),
             Section("counts", ccases, counts_case, desc="counts/from_counts/add_counts/distribution/frequencies/parity tallies on every multiset"),
             Section("nonising", [{"p": p, "sum": s} for p in "XY" for s in (0, 1)], nonising_case, desc="non-Ising operators are refused with TypeError")]
+    ws = []
+    for w in ((8, 31, 32, 33, 63, 64, 65, 70, 128, 130) if thorough else (33, 63, 64, 65, 70, 130)):
+        ws += [{"w": w, "ones": [[w - 1], [w - 2], [0], [0, w - 1]], "mult": [1, 2, 3, 1]}, {"w": w, "ones": [[], [w - 1]], "mult": [2, 1]}, {"w": w, "ones": [[1, w - 1], [1], [w - 1], [1, w - 2]], "mult": [1, 1, 2, 1]},
+               {"w": w, "ones": [list(range(w)), list(range(w - 1)), list(range(1, w))], "mult": [1, 1, 1]}]
+    secs.append(Section("wide_shots", ws, wide_shots_case, desc="bitstrings of 33..130 bits (wider than a machine word): outcomes that differ only in the highest positions"))
     D = 4 if thorough else 3
     hs = [{"hist": [EVENTS[i] for i in combo]} for d in range(0, D + 1) for combo in itertools.product(range(len(EVENTS)), repeat=d)]
     secs.append(Section("histories", hs, history_case, desc="every history of <=%d events (query / replace / in-place edit / add_counts / append / pop) on one Measurements object; "
